@@ -3,7 +3,7 @@
 // Contracts for package cbor, checked by /verif (govc). Comment-only.
 package cbor
 
-//@ define validIO(i *IOCbor) = i != nil && i.refEntry != nil && i.refClock != nil && (i.linkKey == nil || ref(i.linkKey) != nil)
+//@ define validIO(i *IOCbor) = i != nil && i.refEntry != nil && i.refClock != nil && (i.linkKey == nil || ref(i.linkKey) != nil) && i.constantIdentity == nil
 
 //@ func (*IOCbor).DecodeRawJSONLog
 //@   requires i != nil && node != nil
@@ -27,3 +27,9 @@ package cbor
 //@   requires validIO(i) && validEntry(entry)
 //@   ensures [presign-returns-a-usable-entry] err == nil ==> validEntry(result0)
 //@   ensures [presign-does-not-touch-its-argument] err == nil ==> result0 == entry || fresh(result0)
+//@   ensures [presign-keeps-signed-fields] err == nil ==> sameEntryCore(result0, entry)
+
+//@ func (*IOCbor).Write
+//@   requires i != nil && ipfs != nil && i.constantIdentity == nil
+//@   requires typeis(obj, "*entry.Entry") ==> validEntry(obj.(iface.IPFSLogEntry)) && (obj.(*entry.Entry).Identity == nil || obj.(*entry.Entry).Identity.Signatures != nil)
+//@   ensures [write-reports-failure] err != nil ==> result0 == cidUndef
